@@ -41,7 +41,7 @@ def gen_model(rng):
     if rng.chance(2, 3):
         rules.append(("additive", {"equation": "S = A + B"}, rng.choice(["repeated", "dt"])))
     if rng.chance(1, 2):
-        rules.append(("assignment", {"equation": "R = 2*A + k0"}, rng.choice(["repeated", "dt", 1.5, "start"])))
+        rules.append(("assignment", {"equation": "R = 2*A + k0"}, rng.choice(["repeated", "dt", 1.5, "start", 0, 0.0, "0", 2])))
     params = {"tau": 0.4, "mu": 1.2, "th": 0.25}
     for j in range(4):
         params["k%d" % j] = rng.choice([0.5, 1.0, 2.0]); params["K%d" % j] = rng.choice([2.0, 3.0]); params["n%d" % j] = rng.choice([1.0, 2.0])
